@@ -438,7 +438,20 @@ func (cc *checkCtx) decideFailure(rec *obRecord, outDir string) {
 	allUnsat := true
 	for i, f := range rec.o.Failures {
 		name := fmt.Sprintf("%s__p%d", rec.o.Name, i)
-		path, err := writeQueryFile(filepath.Join(outDir, "vc"), name, rec.u.decls, f.Asserts, f.Values)
+		vals := append([]string(nil), f.Values...)
+		seen := map[string]bool{}
+		for _, v := range vals {
+			seen[v] = true
+		}
+		for _, a := range f.Asserts {
+			for _, m := range resultConstRe.FindAllString(a, -1) {
+				if !seen[m] && len(vals) < 200 {
+					seen[m] = true
+					vals = append(vals, m)
+				}
+			}
+		}
+		path, err := writeQueryFile(filepath.Join(outDir, "vc"), name, rec.u.decls, f.Asserts, vals)
 		if err != nil {
 			rec.status = "undecided"
 			rec.detail = err.Error()
